@@ -179,6 +179,33 @@ def gen(rng, tier):
             continue          # a handle into a removed element is a detached config: outside the tree model
         yield {"k": "ops", "init": init, "optsInit": bo, "ops": ops, "cmpHandles": True, "_tag": "ops/shifted-handle",
                "_sig": "shift:" + ",".join(sorted(kinds)) + ":%d" % len(handles), "_nt": True}
+    # trees whose children have been attached under further names, renamed, removed and then copied (identity-level model of
+    # C05/C10/C15): every setting of the tree is still there under its name afterwards
+    from .. import forest as FO
+    frng = rng.fork("forest")
+    for _ in range(100 if tier == "quick" else 1000):
+        yield FO.history(frng, tier, refs=False, reads=False, flavour="c05")
+
+
+def oracle(case, impl, model):
+    if case.get("k") == "forest":
+        from .. import forest as FO
+        return FO.oracle_for("C05")(case, impl, model)
+    return None
+
+
+def normalize_pair(case, impl, model):
+    if case.get("k") == "forest":
+        from .. import forest as FO
+        return FO.normalize_pair(case, impl, model)
+    return model, impl          # engine: C.same(first, second) reads the first as the model (covering comparison of errors)
+
+
+def fix_candidate(cand, base):
+    if cand.get("k") == "forest":
+        from .. import forest as FO
+        return FO.fix_candidate(cand, base)
+    return cand
 
 
 def nontrivial(case, impl):
